@@ -870,6 +870,47 @@ def r01_15(ctx):
     delegate(ctx, c04.r04_12, lambda c: True)
 
 
+def own_nodes_(repo, f):
+    for n in ast.walk(f.node):
+        if repo.enclosing_func(n) is f or n is f.node:
+            yield n
+
+
+USER_VALUE_TRUTH_OK = {
+    "Symbol.str_value": "the string arm: an empty user string is treated like none there",
+    "Symbol.bool_value": "choice member: `vis and self._user_value` asks for the user value y",
+}
+
+
+def r01_16(ctx):
+    """R01.16 n and the empty string are user values: outside the two evaluator arms that ask for a *truthy* user value, the
+    presence of a user value is tested with `is None` / `is not None`, never by truthiness - `if not self._user_value: return`
+    in unset_value() keeps a user's n (0) and "" for ever, and the option never returns to its default."""
+    repo = ctx.repo
+    n = 0
+    for f in repo.funcs_in(CORE):
+        for x in own_nodes_(repo, f):
+            tests = []
+            if isinstance(x, (ast.If, ast.While, ast.IfExp)):
+                tests = [x.test]
+            elif isinstance(x, ast.BoolOp):
+                tests = list(x.values)
+            elif isinstance(x, ast.UnaryOp) and isinstance(x.op, ast.Not):
+                tests = [x.operand]
+            for t in tests:
+                while isinstance(t, ast.UnaryOp) and isinstance(t.op, ast.Not):
+                    t = t.operand
+                if isinstance(t, ast.Attribute) and t.attr == "_user_value":
+                    n += 1
+                    construct = f"{f.short}/truth test of `{ast.unparse(t)}` at a place that asks for a truthy user value"
+                    if f.short in USER_VALUE_TRUTH_OK:
+                        ctx.ok(construct, f.loc(t), reason=USER_VALUE_TRUTH_OK[f.short])
+                    else:
+                        ctx.bad(construct, "the test takes the user values n (0) and \"\" for `no user value`: they are never removed / never honoured", f.loc(t))
+    if n < 2:
+        raise AnalysisError(f"only {n} truth tests of _user_value found")
+
+
 def rules():
-    return [("R01.15", r01_15, 3), ("R01.14", r01_14, 2), ("R01.13", r01_13, 3), ("R01.12", r01_12, 8), ("R01.11", r01_11, 1), ("R01.10", r01_10, 2), ("R01.9", r01_9, 10), ("R01.1", r01_1, 9), ("R01.2", r01_2, 5), ("R01.3", r01_3, 5), ("R01.4", r01_4, 12), ("R01.5", r01_5, 7),
+    return [("R01.16", r01_16, 2), ("R01.15", r01_15, 3), ("R01.14", r01_14, 2), ("R01.13", r01_13, 3), ("R01.12", r01_12, 8), ("R01.11", r01_11, 1), ("R01.10", r01_10, 2), ("R01.9", r01_9, 10), ("R01.1", r01_1, 9), ("R01.2", r01_2, 5), ("R01.3", r01_3, 5), ("R01.4", r01_4, 12), ("R01.5", r01_5, 7),
             ("R01.6", r01_6, 5), ("R01.7", r01_7, 4), ("R01.8", r01_8, 14)]
